@@ -449,7 +449,14 @@ def run(rep, tier):
             rhs = T(strip(e["args"][0] if e.get("k") == "call" else e["rhs"]))
             if not ("get_machine_affinity_mask" in rhs and any((not t) and a == "any(mask)" for a, t in fb)):
                 okw = False
-        if okm and okw:
+        from engine.kinds import bypass_path as _bp3
+        skipped = _bp3(f, lambda e: e.get("k") == "call" and callee_short(e) == "set_thread_affinity_mask")
+        if okm and okw and (skipped is not None or not wr):
+            rep.bad("C15.R3", f, loc_of(st[0]), "unbound-inherits-launcher-mask", "thread_func %s: a worker without a binding (--pika:bind=none: empty mask) has to be given the full "
+                    "machine mask explicitly, because a new OS thread inherits the affinity of the thread that started the runtime - under taskset / srun / mpirun --bind-to the "
+                    "'unbound' workers otherwise all stay confined to the launcher's PUs (and share them) while pika reports them unbound" % (
+                        "can skip set_thread_affinity_mask" if skipped is not None else "never replaces an empty mask by get_machine_affinity_mask()"))
+        elif okm and okw:
             rep.ok("C15.R3", f, "worker binds to get_pu_mask(topo, global_thread_num); only an empty mask is replaced by the machine mask")
         else:
             rep.bad("C15.R3", f, f.loc, "bind-mask", "the worker does not bind itself to the mask computed for its global thread number")
